@@ -528,7 +528,9 @@ def expectation(loaded: dict, disk: Disk, mode: str | None) -> dict:
     may_after, may_exec, may_failed = simulate_exec(loaded, found, disk, may_changed)
     # a file that fails to load need not be tried (what a failing file leaves behind, and whether it is tried again
     # while it still fails, is not stated); one that loads must be executed
-    must_exec = [c for c in must_exec_all if c not in must_failed]
+    # (the lower bound also needs the execution to happen, and succeed, under the upper-bound change set: whether an
+    # unguarded import succeeds can depend on an optional discard)
+    must_exec = [c for c in must_exec_all if c not in must_failed and c in may_exec and c not in may_failed]
     may_exec = sorted(set(may_exec) | set(must_exec_all))
     return {
         "failed": must_failed | may_failed, "failed_def": must_failed & may_failed,
@@ -1110,7 +1112,9 @@ class Judge:
 
         # ---- (a) the set of contexts
         must_present = (({c for c in before if c not in may_changed} - orphans) | must_exec) - failed_any
-        may_present = {c for c in before if c not in must_changed} | may_exec
+        # (a context no loaded auto-loaded file reaches - importer gone, or left behind by a load that failed - may
+        # stay or go whatever happens to its file)
+        may_present = {c for c in before if c not in must_changed} | may_exec | orphans
         for ctx in present:
             if ctx in may_present:
                 continue
